@@ -1098,6 +1098,7 @@ func main() {
 		extra("votes", o.Pick(3, 9), func(idx int, local *stats) string { return scenarioVotes(o, idx, local) })
 		extra("storm", o.Pick(1, 3), func(idx int, local *stats) string { return scenarioStorm(o, idx, local, "c07") })
 		extra("deposed-tail", o.Pick(1, 4), func(idx int, local *stats) string { return scenarioDeposedTail(o, idx, local, "c07") })
+		extra("biglog", o.Pick(1, 2), func(idx int, local *stats) string { return scenarioBigLog(o, idx, local) })
 		extra("lossy-posts", o.Pick(1, 4), func(idx int, local *stats) string { return scenarioLossyPosts(o, idx, local) })
 		wg.Add(1)
 		go func() {
